@@ -11,6 +11,7 @@ import (
 	"os/exec"
 	"strconv"
 	"strings"
+	"syscall"
 	"time"
 )
 
@@ -31,6 +32,8 @@ type Solver struct {
 	out     *bufio.Reader
 	Queries int
 	Retries int
+	lines   chan string // solver output, one line per message (closed on EOF)
+	Killed  int
 	Time    time.Duration
 	timeout int // ms per query
 	dead    bool
@@ -61,10 +64,24 @@ func NewSolver(kind string, timeoutMs int) (*Solver, error) {
 		return nil, err
 	}
 	cmd.Stderr = nil
+	// never leave a spinning solver behind when the engine is killed
+	cmd.SysProcAttr = &syscall.SysProcAttr{Pdeathsig: syscall.SIGKILL}
 	if err := cmd.Start(); err != nil {
 		return nil, err
 	}
-	s := &Solver{name: kind, cmd: cmd, in: in, out: bufio.NewReaderSize(out, 1<<20), timeout: timeoutMs}
+	s := &Solver{name: kind, cmd: cmd, in: in, out: bufio.NewReaderSize(out, 1<<20), timeout: timeoutMs, lines: make(chan string, 256)}
+	go func() {
+		for {
+			l, err := s.out.ReadString('\n')
+			if l != "" {
+				s.lines <- strings.TrimRight(l, "\r\n")
+			}
+			if err != nil {
+				close(s.lines)
+				return
+			}
+		}
+	}()
 	if d := os.Getenv("ZSYM_DUMP"); d != "" {
 		if f, err := os.OpenFile(d, os.O_CREATE|os.O_WRONLY|os.O_APPEND, 0o644); err == nil {
 			s.dump = f
@@ -100,9 +117,22 @@ func (s *Solver) Close() {
 	}
 }
 
+// readLine waits for the next output line; a solver that stays silent well past
+// its own timeout is killed (its soft timeout is not honoured inside some
+// preprocessing steps) and the query is reported as unknown.
 func (s *Solver) readLine() (string, error) {
-	l, err := s.out.ReadString('\n')
-	return strings.TrimRight(l, "\r\n"), err
+	limit := time.Duration(s.timeout)*time.Millisecond + 15*time.Second
+	select {
+	case l, ok := <-s.lines:
+		if !ok {
+			return "", io.EOF
+		}
+		return l, nil
+	case <-time.After(limit):
+		s.Killed++
+		s.cmd.Process.Kill()
+		return "", fmt.Errorf("solver silent for %v: killed", limit)
+	}
 }
 
 // Check decides satisfiability of the conjunction of asserts.  If want is
@@ -163,7 +193,9 @@ func (s *Solver) check1(asserts []*Term, want []*Term, useReset bool, timeoutMs 
 		}
 	}
 	sb.WriteString("(check-sat)\n(echo \"@@done\")\n")
-	s.send(sb.String())
+	// a solver busy with the previous text does not drain its stdin: never block on
+	// the pipe, the read below carries the deadline
+	go s.send(sb.String())
 	var verdict Verdict = Unknown
 	errs := ""
 	got := false
